@@ -69,12 +69,30 @@ def sites(spans, hex_bitmap=False):
     return out
 
 
-def directed_substitutions(spans, enc, values, classes=None):
+TLV_VALUES = [0x00, 0x01, 0x1F, 0x5F, 0x7F, 0x80, 0x81, 0x82, 0x84, 0x9F, 0xFE, 0xFF]
+
+
+def site_values(cls, off, msg, enc, hex_bitmap, all_values=False):
+    """values substituted at one site; per site class so that every value is meaningful there"""
+    if all_values:
+        return range(256)
+    if cls == "bitmap":
+        if hex_bitmap:
+            return sorted(set(b"0123456789abcdefABCDEFg \x00\xff"))
+        cur = msg[off]
+        return sorted(set([cur ^ (1 << b) for b in range(8)] + [0x00, 0xFF, 0x80]))
+    if cls in ("tlv_len", "tlv_tag"):
+        return TLV_VALUES
+    return curated_values(enc)
+
+
+def directed_substitutions(spans, enc, msg, hex_bitmap=False, all_values=False, classes=None):
     for off, cls in sites(spans):
         if classes and cls not in classes:
             continue
-        for v in values:
-            yield [sub(off, v, cls)]
+        for v in site_values(cls, off, msg, enc, hex_bitmap, all_values):
+            if v != msg[off]:
+                yield [sub(off, v, cls)]
 
 
 def numeral_faults(spans, enc):
